@@ -155,6 +155,16 @@ CLAIMED = {
             'Trusts the stub HTTP client/table and in-memory temp files; HTML tokenisation (html5lib/lxml cannot run here), wildcard and Allow '
             'semantics of the third-party matcher outside the claim.',
             'DESIGN.md 3/C20', 'status code symbolic int; origins, order, rule shapes, sizes by symbolic index'),
+    'C09': ('other',
+            'Bounded symbolic robustness checking of the pure-Python parsers and processors: every entry point is fed server-controlled input and '
+            'only the four per-URL error kinds may come out. HTTP: four valid responses with one byte replaced / inserted at every position, '
+            'truncated at every position or a line dropped (position and byte symbolic, enumerated), plus free symbolic bytes; FTP: reply-line '
+            'sequences from a pool of malformed shapes through welcome/login/PASV/SIZE/REST/RETR, listings from a pool of hostile tokens through '
+            'the real download_listing post-processing (LIST and MLSD), per-URL errors injected at every stage of the FTP and web processors; '
+            'robots.txt / CSS / JavaScript documents x declared charsets through the loaders and scrapers.',
+            'Partial claim: html5lib/lxml HTML parsing, sitemap XML and TLS cannot run here and are outside; token/byte pools are finite; the free-'
+            'bytes harnesses are hunts; compressed bodies are covered under C19.',
+            'DESIGN.md 3/C09', 'mutation position/byte, token and error-kind indices symbolic; free bytes <=3-5'),
 }
 
 NOT_APPLICABLE = {
@@ -163,8 +173,7 @@ NOT_APPLICABLE = {
     'C14': 'the semantics live in SQL statements executed by SQLite through SQLAlchemy; every symbolic value is realised at the sqlite3 boundary and lifting the emitted SQL to an SMT model would verify a model of SQLite, not wpull (DESIGN.md 4).',
 }
 
-PENDING = {k: 'claimed in DESIGN.md 3 but its check is not built yet at this commit' for k in
-           'C09'.split()}
+PENDING = {}
 
 
 def main():
